@@ -185,14 +185,19 @@ Definition set_subs (st : state) (s : nat) (l : list pattern) : state :=
 Definition subscribe (st : state) (s : nat) (pat : pattern) : state :=
   getdata (set_subs st s (add_sub (st_subs st s) pat)) s pat.
 
-(* REMOVEPARAMETERS "SUBSCRIBE:<pat>"; the client forgets the replicas it is no longer subscribed to *)
-Definition unsubscribe (st : state) (s : nat) (pat : pattern) : state :=
-  let l := filter (fun q => negb (pattern_eqb pat q)) (st_subs st s) in
+(* REMOVEPARAMETERS: the subscriptions that satisfy [keep] stay; the client forgets the replicas it is no
+   longer subscribed to *)
+Definition unsubscribe_by (st : state) (s : nat) (keep_sub : pattern -> bool) : state :=
+  let l := filter keep_sub (st_subs st s) in
   let keep := fun (s' : nat) (p : path) => negb (Nat.eqb s' s) || subscribed_in l p in
   mkSt (st_n st) (st_tree st) (fun x => if Nat.eqb x s then l else st_subs st x) (st_ipres st) (st_refl st) (st_pend st)
        (fun s' p => if keep s' p then st_mirror st s' p else [])
        (fun s' p => if keep s' p then st_hist st s' p else [])
        (st_out st).
+
+(* REMOVEPARAMETERS "SUBSCRIBE:<pat>" (escaped: exactly that subscription) *)
+Definition unsubscribe (st : state) (s : nat) (pat : pattern) : state :=
+  unsubscribe_by st s (fun q => negb (pattern_eqb pat q)).
 
 (* CloneDataNodeSubtree(node at src, destPath, flags{ADDTOINDEX}, optInsertBefore) *)
 Fixpoint copy_index (cfg : config) (st : state) (dst : path) (l : list name) (w : nat) : state :=
@@ -258,6 +263,7 @@ Inductive cmd :=
 | CRemove (pat : pattern)                                     (* PR_COMMAND_REMOVEDATA, one key; also RemoveDataNodes *)
 | CSubscribe (pat : pattern)                                  (* SETPARAMETERS SUBSCRIBE:pat (+ GETDATA when quiet) *)
 | CUnsubscribe (pat : pattern)                                (* REMOVEPARAMETERS SUBSCRIBE:pat *)
+| CUnsubscribeAll                                             (* REMOVEPARAMETERS SUBSCRIBE:* (wildcard: every subscription) *)
 | CGetData (pat : pattern)                                    (* PR_COMMAND_GETDATA, one key *)
 | CSetRefl (v : bool)                                         (* PR_NAME_REFLECT_TO_SELF parameter set / removed *)
 | CNoop                                                       (* anything without effect on indices *)
@@ -281,6 +287,7 @@ Definition handle (cfg : config) (st : state) (s : nat) (c : cmd) : state :=
       fold_left prim_remove_node (rev (expand (st_tree st) [NS s] pat)) st
   | CSubscribe pat => subscribe st s pat
   | CUnsubscribe pat => unsubscribe st s pat
+  | CUnsubscribeAll => unsubscribe_by st s (fun _ => false)
   | CGetData pat => getdata st s pat
   | CSetRefl v => set_refl st s v
   | CNoop => st
